@@ -8,6 +8,12 @@ TRUST = ["Eigen dense self-adjoint eigen-solver, LU and MatrixFunctions::exp use
          "held on the executions observed only; nothing is claimed for inputs/schedules that were not run"]
 
 VH = {
+    "C13": dict(drivers=[dict(driver="g2cont", flavours=P2, timeout=120)],
+                floor=dict(quick=40, thorough=400),
+                rule="cases = random call histories (3-12 calls) on one TwoParticleGFContainer over a small generated model (N=2..3 quick, ..4 thorough): prepareAll(random index sets, repeated), "
+                     "computeAll(split / nosplit), on-demand operator()(q) [+prepare][+compute], evaluations at random Matsubara triples of touched quadruples and their exchange partners; the precondition "
+                     "'prepared and computed' is read from the element's own status; monitors: container value == stand-alone TwoParticleGF for the same quadruple, both exchange identities, every listed "
+                     "element evaluable after a bulk computation; stored/alias by pointer identity; non-trivial = >=1 evaluation and (>=1 bulk compute or >=1 alias evaluation); distinct = model + history"),
     "C20": dict(drivers=[dict(driver="lattice", flavours=P2, timeout=30)],
                 floor=dict(quick=300, thorough=10000),
                 rule="cases = random call histories (5-40 calls) over one Lattice x {real,complex build}: addSite, raw addTerm (orders 2/4/6; valid, unknown label / orbital / spin out of range at each position, zero amplitude), "
@@ -67,6 +73,10 @@ HOOK_COMMITS = []
 NOT_YET = {}
 
 INFO = {
+    "C13": dict(technique="runtime history monitor: random prepareAll/computeAll/lookup/evaluate sequences on TwoParticleGFContainer vs stand-alone TwoParticleGF objects and the exchange identities",
+                level_text="Hundreds (quick) / thousands (thorough) of random request histories are driven through the real container; each evaluable entry (stored or alias) is compared with an independently constructed two-particle Green's function and with its exchange partners; held on what was run.",
+                level_note="Single-rank histories (multi-rank container behaviour is C06); the reference objects use the same library class for one quadruple at a time (its correctness is C02's subject).",
+                design_ref="DESIGN.md section 3, C13"),
     "C20": dict(technique="runtime model-based monitor: random API call histories on Pomerol::Lattice / LatticePresets vs a sequential reference model of sites and accepted terms",
                 level_text="Every call of ~1000 (quick) / ~50000 (thorough) random histories x {real,complex} is followed by a full comparison of the lattice (site map, per-order term lists, max order) with a reference model: invalid calls must throw and leave the lattice unchanged, "
                            "zero-amplitude terms must be ignored, valid raw terms must be appended verbatim, presets may only append terms with existing indices, term factories must equal their documented operator on Fock space, look-ups and copies must be faithful; held on what was run, not a proof.",
